@@ -72,8 +72,9 @@ def no_ambient_state(ctx):
             gl = sorted({t[1] for t in e.origins if t[0] in ('global', 'greach')})
             for g in gl:
                 n_glob += 1
+                nested_ft = u.parent is not None and u.parent.qualname == 'core.Path.from_text'
                 ok = (u.qualname == 'core.Path.from_text' and g.startswith('core.Path._CACHE')) or \
-                     (u.qualname == 'core.Path.from_text.create' and g == 'core.Path')
+                     (nested_ft and g == 'core.Path')
                 ctx.ob(ok, u, 'shared state written during evaluation is an allow-listed memo: %s' % e.text(),
                        '' if ok else '%s writes %s while evaluating: visible to concurrent / re-entrant calls' % (u.qualname, g), node=e.node)
     # stores through module attribute: `module.X = ...`
@@ -84,7 +85,7 @@ def no_ambient_state(ctx):
                 for t in tg:
                     if isinstance(t, ast.Attribute) and isinstance(t.value, ast.Name):
                         d = p.resolve_name(u, t.value.id)
-                        if d.kind in ('module', 'class') and not (u.qualname == 'core.Path.from_text.create'):
+                        if d.kind in ('module', 'class') and not (u.parent is not None and u.parent.qualname == 'core.Path.from_text'):
                             ctx.ob(False, u, 'no module / class attribute is rebound during evaluation: %s' % norm(n), node=n)
     ctx.floor(3)
 
@@ -116,13 +117,17 @@ def memos_monotone(ctx):
                         ctx.ob(True, u, 'memo write is a single subscript store: %s' % norm(n), node=n)
     # Path.from_text writes through a local alias of the partition
     u = ctx.unit('core.Path.from_text')
-    st = [n for n in u.own_nodes() if isinstance(n, ast.Assign) and isinstance(n.targets[0], ast.Subscript) and is_name(n.targets[0].value, 'cache')]
+    sel = [n for n in u.own_nodes() if isinstance(n, ast.Assign) and is_name(n.targets[0]) and isinstance(n.value, ast.Subscript)
+           and isinstance(n.value.value, ast.Attribute) and n.value.value.attr == '_CACHE']
+    cache = sel[0].targets[0].id if sel else None
+    st = [n for n in u.own_nodes() if isinstance(n, ast.Assign) and isinstance(n.targets[0], ast.Subscript) and is_name(n.targets[0].value, cache)]
     ctx.ob(len(st) == 1 and u in reach, u, 'the path memo is filled by one subscript store: %s' % [norm(s) for s in st])
     ev = [n for n in u.own_nodes() if isinstance(n, (ast.Delete,)) or (isinstance(n, ast.Call) and isinstance(n.func, ast.Attribute)
-          and n.func.attr in ('clear', 'pop', 'popitem') and is_name(n.func.value, 'cache'))]
+          and n.func.attr in ('clear', 'pop', 'popitem') and is_name(n.func.value, cache))]
     ctx.ob(not ev, u, 'the path memo never evicts (overflow bypasses it instead)', '%s' % [norm(e) for e in ev])
     # what a racing reader can observe: the entry is complete when stored (value built before the store)
-    ok = bool(st) and isinstance(st[0].value, ast.Call) and is_name(st[0].value.func, 'create')
+    kids = [k.name for k in u.children if not k.is_lambda]
+    ok = bool(st) and isinstance(st[0].value, ast.Call) and isinstance(st[0].value.func, ast.Name) and st[0].value.func.id in kids
     ctx.ob(ok, u, 'an entry is fully built before it becomes visible (store of create()\'s result)')
     gh = ctx.unit('core.TargetRegistry.get_handler')
     ctx.ob(gh in reach, gh, 'handler lookup is part of the evaluation closure')
